@@ -1,6 +1,7 @@
 import WuffsVerif.Common.Line
 import WuffsVerif.Model.Linkage
 import WuffsVerif.Model.Effects
+import WuffsVerif.Model.EffectFlags
 import WuffsVerif.Model.CNames
 /-! Line driver for C10 (hermeticity).  Ops:
   decls <pkg> <item>*                -> sorted `kind|name|linkage|qual` list (or `-`)
@@ -11,6 +12,7 @@ import WuffsVerif.Model.CNames
   purecall <method> <effect>         -> unchanged (pure) | may-change
   tcheck (M <pure|impure> <stmt> <expr>)*  -> ok | reject-parse | reject-check   (prefix notation, see below;
                                         slice refs: sa i | sl v | sf f | pal | ss f <none|some expr> <none|some expr>)
+  eflags <expr> / sflags <sref>      -> <pure|impure> <0|1>   (Effect(), SubExprHasEffect() of the AST node: ast.NewExpr)
   classify <name>                    -> class
 -/
 open WuffsVerif WuffsVerif.Line
@@ -86,6 +88,7 @@ def parseSRef : List String → Option (SRef × List String)
 
 partial def parseStmt : List String → Option (Stmt × List String)
   | "skip" :: r => some (.skip, r)
+  | "choose" :: r => some (.choose, r)
   | "seq" :: r => do
       let (a, r1) ← parseStmt r
       let (b, r2) ← parseStmt r1
@@ -131,6 +134,9 @@ partial def parseProg (acc : Prog) : List String → Option Prog
       parseProg (acc ++ [⟨e, b, res⟩]) r2
   | _ => none
 
+def flagsStr (f : Flags) : String :=
+  (match f.eff with | .pure => "pure" | .impure => "impure") ++ (if f.sub then " 1" else " 0")
+
 def step (l : List String) : String :=
   match l with
   | "decls" :: name :: items =>
@@ -152,6 +158,14 @@ def step (l : List String) : String :=
       match tcheck p with
       | .ok => "ok" | .rejectParse => "reject-parse" | .rejectCheck => "reject-check"
     | none => "bad-op"
+  | "eflags" :: rest =>
+    match parseExpr rest with
+    | some (e, []) => flagsStr e.flags
+    | _ => "bad-op"
+  | "sflags" :: rest =>
+    match parseSRef rest with
+    | some (s, []) => flagsStr s.flags
+    | _ => "bad-op"
   | ["classify", n] => (CNames.classify n).str
   | _ => "bad-op"
 
